@@ -163,6 +163,10 @@ func OpenEngine(name string, splitKeys ...[]byte) (*EngineHandle, error) {
 	return nil, fmt.Errorf("unknown engine %q", name)
 }
 
+func imetricsNew(kv storage.KvStorage) storage.KvStorage {
+	return imetrics.NewKvStorage(kv, NopMetrics)
+}
+
 // OpenBadgerAt opens (or re-opens) a Badger store in dir
 func OpenBadgerAt(dir string, removeOnClose bool) (*EngineHandle, error) {
 	kv, err := ibadger.NewKvStorage(ibadger.Config{Dir: dir})
